@@ -3,3 +3,6 @@ import Spq.Heap
 import Spq.Coeffs
 import Spq.VecZnx
 import Spq.Drv.VecZnx
+import Spq.F64
+import Spq.Caches
+import Spq.Globals
